@@ -13,6 +13,7 @@ Traces are newest first.
 import CfVerif.Proofs.C17Period
 import CfVerif.Proofs.C17Motion
 import CfVerif.Proofs.C17HL
+import CfVerif.Proofs.C17Wire
 namespace CfVerif.C17
 open CfVerif CfVerif.Sched
 
@@ -100,6 +101,15 @@ theorem gen_hl_defaults : Gen.C17.hlVelocity = ["if velocity is self.DEFAULT:\n 
     Gen.C17.hlSetDefaultVelocity = ["self._default_velocity = velocity"] ∧ Gen.C17.hlSetDefaultHeight = ["self._default_height = height"] ∧
     Gen.C17.hlSetLandingHeight = ["self._default_landing_height = landing_height"] ∧
     Gen.C17.hlGetPosition = ["return (self._x, self._y, self._z)"] := by decide
+
+/-- the Commander / HighLevelCommander API as the helpers call it: parameter order of the hover set-point, defaults of the rest
+(`mcCall` / `hlCall` in Proofs/C17Wire translate trace entries into C08 calls under exactly these conventions) -/
+theorem gen_api : Gen.C17.apiHover = ["vx", "vy", "yawrate", "zdistance"] ∧ Gen.C17.apiStop = [] ∧
+    Gen.C17.apiNotify = ["remain_valid_milliseconds=0"] ∧
+    Gen.C17.apiTakeoff = ["absolute_height_m", "duration_s", "group_mask=ALL_GROUPS", "yaw=0.0"] ∧
+    Gen.C17.apiLand = ["absolute_height_m", "duration_s", "group_mask=ALL_GROUPS", "yaw=0.0"] ∧
+    Gen.C17.apiGoTo = ["x", "y", "z", "yaw", "duration_s", "relative=False", "linear=False", "group_mask=ALL_GROUPS"] ∧
+    Gen.C17.apiHlStop = ["group_mask=ALL_GROUPS"] ∧ Gen.C17.apiAllGroups = 0 := by decide
 
 /-- the model of the current source is the protected one -/
 theorem ofGen_fixed (sqrt : Q → Q) (pi dh : Q) (conn : Bool) : Fixed (Static.ofGen sqrt pi dh conn) := gen_mc_protected
@@ -355,6 +365,75 @@ theorem hl_unrepaired_counterexample :
     (fun r : HL × Option Err => (r.2, r.1.flying, r.1.trace.head?))
       (hlWith hlUnrepaired (HL.new 0 0 0 0 (1 / 2) (1 / 2) 0 none) [.go .down 1 none])
       = (some .valueError, true, some (4, HCmd.land 0 (-1))) := by decide +kernel
+
+/-! ## On the wire: the trace theorems composed with C08's packet theorems
+
+The clauses above are about the calls made to `Commander` / `HighLevelCommander`.  What the Crazyflie does is decided by what its
+firmware decodes from the packets those objects emit, which depends on the negotiated protocol version.  `C08.emit ver call` is
+C08's model of the real emitting method (formats and argument expressions regenerated from commander.py / high_level_commander.py),
+`C08.Fw.decode` the firmware-side decoder, `C08.expected?` what the arguments denote.  `enc` is the Python number object carrying a
+model rational (binary64 rounding is outside both models). -/
+
+/-- **mc_wire_decodes.**  Every entry of every MotionCommander trace (hover set-point, stop, notify), for every protocol
+version: whatever the real `Commander` hands to the link for it is exactly one packet (≤ 30 bytes) that the firmware of that
+version decodes to the command the arguments denote. -/
+theorem mc_wire_decodes (enc : Q → C08.Num) (ver : Int) (cmd : Cmd) (ps : List C08.Packet)
+    (h : C08.emit ver (mcCall enc cmd) = .ok ps) :
+    ∃ p, ps = [p] ∧ p.data.length ≤ 30 ∧ (C08.expected? ver (mcCall enc cmd)).isSome ∧
+      C08.Fw.decode ver p.header p.data = C08.expected? ver (mcCall enc cmd) :=
+  mc_emit_decodes enc ver cmd ps h
+
+/-- **mc_wire_direction.**  ... and what a hover set-point denotes does not depend on the side of the protocol switch: the
+firmware uses the binary32 values of the caller's `vx, vy`, height and YAW RATE - sign included - for legacy (≤ 8) and current
+protocol versions alike (float yaw rate; the MotionCommander's own yaw rates are floats).  With `turn_displacement` /
+`circle_displacement`: the decoded yaw rate x duration is the requested angle to the requested side. -/
+theorem mc_wire_direction (enc : Q → C08.Num) (ver : Int) (vx vy yaw z : Q) (hy : (enc yaw).isIntZero = false) :
+    C08.expected? ver (mcCall enc (.hover vx vy yaw z)) =
+      (do pure (C08.Fw.Cmd.hover (← C08.f32? (enc vx)) (← C08.f32? (enc vy)) (← C08.f32? (enc yaw)) (← C08.f32? (enc z)))) :=
+  hover_expected ver _ _ _ _ hy
+
+/-- **mc_ends_stopped_on_the_wire.**  `mc_ends_stopped` composed with the packet theorems: under its hypotheses, if anything
+was sent at all, the last two calls are `stop, notify_setpoint_stop`, and for every protocol version each of them is emitted as one
+packet that the firmware decodes as `stop`, resp. `notifySetpointsStop` with validity 0. -/
+theorem mc_ends_stopped_on_the_wire (st : Static) (hfix : Fixed st) (body : List Prim) (sch : List Nat) (c : Cfg)
+    (hrun : run (machine st) (initWith body) sch = some c) (hleft : c.code = []) (hsent : c.trace ≠ []) (ver : Int) (enc : Q → C08.Num) :
+    ∃ t t' rest, c.trace = (t', Cmd.notify) :: (t, Cmd.stop) :: rest ∧
+      (∃ p, C08.emit ver (mcCall enc Cmd.stop) = .ok [p] ∧ C08.Fw.decode ver p.header p.data = some .stop) ∧
+      (∃ p, C08.emit ver (mcCall enc Cmd.notify) = .ok [p] ∧ C08.Fw.decode ver p.header p.data = some (.notifySetpointsStop 0)) := by
+  obtain ⟨_, he, _⟩ := mc_ends_stopped st hfix body sch c hrun hleft
+  rcases he with he | ⟨t, t', rest, he⟩
+  · exact absurd he hsent
+  · exact ⟨t, t', rest, he, (stop_notify_wire ver).1, (stop_notify_wire ver).2⟩
+
+/-- **hl_wire_decodes.**  Every commander entry of every PositionHlCommander trace (take-off, go-to, land, stop), for every
+protocol version: one packet, decoded by that firmware to what the arguments denote ... -/
+theorem hl_wire_decodes (enc : Q → C08.Num) (ver : Int) (cmd : HCmd) (call : C08.Call) (hcall : hlCall enc cmd = some call)
+    (ps : List C08.Packet) (h : C08.emit ver call = .ok ps) :
+    ∃ p, ps = [p] ∧ p.data.length ≤ 30 ∧ (C08.expected? ver call).isSome ∧ C08.Fw.decode ver p.header p.data = C08.expected? ver call :=
+  hl_emit_decodes enc ver cmd call hcall ps h
+
+/-- ... namely: an absolute, non-linear go-to to the binary32 values of the target `(x, y, z)` with yaw 0 and the duration (the
+legacy layout without the `linear` field before protocol version 8, the current one from 8 on); take-off / landing to the height
+with yaw 0.0 and the duration; stop; all for group mask 0 (all groups).  With `hl_goto_targets_position_with_duration`: the
+decoded go-to targets the dead-reckoned position with duration distance / velocity on both sides of the switch. -/
+theorem hl_wire_expected (enc : Q → C08.Num) (ver : Int) (x y z w dur h : Q) :
+    C08.expected? ver (.hlGoTo (enc x) (enc y) (enc z) intZeroF (enc dur) (C08.ki 0) (C08.ki 0) (C08.ki 0)) =
+      (if ver < 8 then (do pure (C08.Fw.Cmd.hlGoTo 0 0 (← C08.f32? (enc x)) (← C08.f32? (enc y)) (← C08.f32? (enc z)) 0 (← C08.f32? (enc dur))))
+       else (do pure (C08.Fw.Cmd.hlGoTo2 0 0 0 (← C08.f32? (enc x)) (← C08.f32? (enc y)) (← C08.f32? (enc z)) 0 (← C08.f32? (enc dur))))) ∧
+    C08.expected? ver (.hlTakeoff (enc h) (enc dur) (C08.ki 0) (some (enc w))) =
+      (do pure (C08.Fw.Cmd.hlTakeoff2 0 (← C08.f32? (enc h)) (← C08.f32? (enc w)) false (← C08.f32? (enc dur)))) ∧
+    C08.expected? ver (.hlLand (enc h) (enc dur) (C08.ki 0) (some (enc w))) =
+      (do pure (C08.Fw.Cmd.hlLand2 0 (← C08.f32? (enc h)) (← C08.f32? (enc w)) false (← C08.f32? (enc dur)))) ∧
+    C08.expected? ver (.hlStop (C08.ki 0)) = some (.hlStop 0) :=
+  hl_expected enc ver x y z w dur h
+
+/-- non-vacuity: a left turn at 72 deg/s (binary64 0x4052000000000000, binary32 0x42900000) is emitted and decoded with yaw rate
++72 by a protocol-7 (legacy packet type) and by a protocol-10 firmware -/
+example : let enc : Q → C08.Num := fun q => if q = 72 then .f 0x4052000000000000 (.bits 0x42900000) else .f 0 (.bits 0)
+    (C08.emit 7 (mcCall enc (.hover 0 0 72 0))).toOption.map (fun ps => ps.map (fun p => C08.Fw.decode 7 p.header p.data)) =
+      some [some (.hover 0 0 0x42900000 0)] ∧
+    (C08.emit 10 (mcCall enc (.hover 0 0 72 0))).toOption.map (fun ps => ps.map (fun p => C08.Fw.decode 10 p.header p.data)) =
+      some [some (.hover 0 0 0x42900000 0)] := by decide +kernel
 
 /-! ## Non-vacuity: concrete instances of the hypotheses -/
 
